@@ -120,7 +120,7 @@ func (g *vfGen) key(t *rapid.T, s *vfSM) uint64 {
 }
 
 func (g *vfGen) cost(t *rapid.T, s *vfSM) int64 {
-	if g.p.roomy {
+	if g.p.roomy || (g.p.id == "C15" && s.fitsAlways()) {
 		// C06's premise: the whole key set fits; nothing may ever need room
 		if rapid.IntRange(0, 4).Draw(t, "zerocost") == 0 {
 			return 0
@@ -351,6 +351,7 @@ func vfRunCase(c *vfCase, next func(s *vfSM) *vfOp) (out vfOutcome) {
 	s, restore := vfNewSM(c.Cfg)
 	defer restore()
 	defer s.shutdown()
+	s.twinWanted = c.Profile == "C15"
 	out.sm = s
 	for {
 		op := next(s)
